@@ -42,6 +42,7 @@ type Tok struct {
 	hasPrio bool
 	proc    string // simulated-process tag (in-package multi-process harnesses)
 	frozen  bool
+	isRoot  bool
 }
 
 // ID returns the lineage identity of the task.
@@ -151,7 +152,12 @@ func CurrentProc() string {
 	return ""
 }
 
+var rootGoid atomic.Int64
+
 func park(t *Tok, site string, res unsafe.Pointer, ver uint64) {
+	if t.isRoot {
+		return // the scheduler's own goroutine never parks: instrumented calls made from it run straight through
+	}
 	if t.wake == nil {
 		t.wake = make(chan struct{})
 	}
@@ -276,6 +282,7 @@ type Config struct {
 	MaxSimTime time.Duration
 	Trace      *os.File // unbuffered trace
 	Invariant  func() error // optional online invariant, evaluated at every quiescence
+	Record     bool         // keep the list of choices in memory (Recorded)
 }
 
 // Scheduler is the bubble root.
@@ -293,7 +300,11 @@ type Scheduler struct {
 	// stats
 	Steps, Choices2plus, MaxRunnable, Advances, StallsFired, BlockedParks int
 	hashState uint64
+	rec       []int
 }
+
+// Recorded returns the choices made so far (Config.Record).
+func (s *Scheduler) Recorded() []int { return append([]int(nil), s.rec...) }
 
 // Finish tells the scheduler that the workload is over.
 func (s *Scheduler) Finish() { s.done.Store(true) }
@@ -358,6 +369,11 @@ func NewScheduler(cfg Config) *Scheduler {
 		}
 	}
 	theSched = s
+	// register the calling goroutine (the bubble root) as the scheduler itself
+	g := goid()
+	mu.Lock()
+	tasks[g] = &Tok{id: "sched", isRoot: true}
+	mu.Unlock()
 	return s
 }
 
@@ -410,7 +426,7 @@ func (s *Scheduler) Run() {
 		var run []*Tok
 		nblocked := 0
 		for t := range parked {
-			if t.frozen {
+			if t.frozen || (t.proc != "" && procFrozen(t.proc)) {
 				continue
 			}
 			if t.blocked != nil && resVer[t.blocked] == t.ver {
@@ -444,6 +460,9 @@ func (s *Scheduler) Run() {
 		k := s.choose(run)
 		t := run[k]
 		s.tracef("C %d %d %d %s %s\n", s.step, k, len(run), t.site, t.id)
+		if s.cfg.Record {
+			s.rec = append(s.rec, k)
+		}
 		if len(run) > 1 {
 			s.Choices2plus++
 		}
@@ -618,4 +637,71 @@ func MapItems[M ~map[K]V, K comparable, V any](m M) []KV[K, V] {
 		out[i] = items[j]
 	}
 	return out
+}
+
+// ---------------------------------------------------------------------------------------------
+// Task groups for in-package harnesses
+
+// TaskSpec describes a root task of a scenario.
+type TaskSpec struct {
+	ID   string
+	Proc string // simulated-process tag ("" = none)
+	Fn   func()
+}
+
+// Reset prepares the scheduler for another phase inside the same bubble.
+func (s *Scheduler) Reset() { s.done.Store(false) }
+
+// RunTasks starts the tasks, runs the scheduling loop until all of them have finished or been
+// frozen by a crash fault, and returns the ids of the tasks that finished.
+func (s *Scheduler) RunTasks(tasks []TaskSpec) map[string]bool {
+	s.Reset()
+	var remaining atomic.Int64
+	remaining.Store(int64(len(tasks)))
+	finished := map[string]bool{}
+	var fmu sync.Mutex
+	procLive := map[string]*atomic.Int64{}
+	for _, t := range tasks {
+		if procLive[t.Proc] == nil {
+			procLive[t.Proc] = &atomic.Int64{}
+		}
+		procLive[t.Proc].Add(1)
+	}
+	prevCrash := OnCrash
+	OnCrash = func(n int64) {
+		// every live task of the crashing process is gone
+		p := CurrentProc()
+		if c := procLive[p]; c != nil {
+			k := c.Swap(0)
+			if remaining.Add(-k) <= 0 {
+				s.Finish()
+			}
+		}
+	}
+	defer func() { OnCrash = prevCrash }()
+	for _, t := range tasks {
+		t := t
+		go func() {
+			defer EnterProc(t.ID, t.Proc)()
+			Yield("start")
+			t.Fn()
+			fmu.Lock()
+			finished[t.ID] = true
+			fmu.Unlock()
+			if c := procLive[t.Proc]; c != nil && c.Load() > 0 {
+				c.Add(-1)
+				if remaining.Add(-1) <= 0 {
+					s.Finish()
+				}
+			}
+		}()
+	}
+	s.Run()
+	fmu.Lock()
+	defer fmu.Unlock()
+	r := map[string]bool{}
+	for k, v := range finished {
+		r[k] = v
+	}
+	return r
 }
